@@ -211,7 +211,11 @@ class OpRunner(object):
             # a decoy with the same names in the process cwd (must never be read)
             cwd = os.path.join(base, 'cwd')
             os.makedirs(cwd)
-            if op.get('decoy'):
+            if op.get('decoy') == 'dirs':
+                # the cwd holds *directories* with the names of the pushed files
+                for ent in op['files']:
+                    os.makedirs(os.path.join(cwd, ent['name']))
+            elif op.get('decoy'):
                 for ent in op['files']:
                     with open(os.path.join(cwd, ent['name']), 'wb') as f:
                         f.write(b'DECOY-' + ent['name'].encode())
